@@ -16,7 +16,7 @@
        desired, did not exist    -> absent, or created empty with the desired parameters. *)
 From stdpp Require Import gmap.
 From Coq Require Import NArith.
-From Verif.C16 Require Import Model Spec Proofs ProofsSafe ProofsMain.
+From Verif.C16 Require Import Model Spec Proofs ProofsSafe ProofsMain ProofsConv ProofsConv2.
 Open Scope N_scope.
 
 (* Kernel: one command changes only the sets it names. *)
@@ -102,3 +102,51 @@ Print Assumptions c16_converges_repaired_example.
 (* Non-vacuity of the safety theorems: the reachable history above contains a failing command, a retry, a partial
    resync, two swaps and two destroys (lk_r3, lk_r4 are `Some`), so `reach`, `apply_updates = Some ...` and
    `apply_deletions = Some ...` are satisfiable by non-trivial states. *)
+
+
+(* ------------------------------------------------------------------------------------------------------------
+   Convergence of the repaired code (fixes/C16-requeue-temp-set-on-write-failure.patch, in /repo as fc39ea1).
+
+   `reachF s k D`: like `reach true`, but the kernel is changed by Felix's commands only (any starting kernel that
+   reports metadata the way `ipset list` prints it - `knorm` -, stale temporary sets and foreign sets included; any
+   API calls; ApplyUpdates / ApplyDeletions with any accepted choices: any command failing, seen as a bad exit
+   status or as a failed write at that line or lines later, retries, full / background / partial resyncs).
+
+   `J s k` = WF s /\ knorm k /\ (a full resync is pending \/ V s k), where `V s k` says: for every name n of
+   Felix's that is NOT queued for a must-resync, Felix's view of n is accurate -
+     temporary name: if it is in the kernel it is in the dataplane view;
+     other name: either absent from both the view and the kernel (and its member tracker's dataplane side is
+       empty), or present in both with the kernel's metadata = the normalised view metadata and the kernel's members
+       = the tracker's dataplane side -
+   and, if n is desired and its tracker's desired and dataplane sides differ, n is in the dirty set. *)
+Theorem c16_view_accurate : forall s k D, reachF s k D -> J s k.
+Proof. exact reachF_J. Qed.
+Print Assumptions c16_view_accurate.
+
+(* One writeUpdates call of the repaired code, in-place add/del path or temp-set-and-swap path alike: if Felix's
+   view of the set was accurate and every command of the block succeeds, the kernel set is exactly the desired set
+   (desired parameters as `create` uses them, desired members) and the new view (clean desired metadata, tracker
+   in sync) is accurate again. *)
+Theorem c16_block_exact : forall M ls s s1 k i inj,
+  write_updates true M ls false s = Some (s1, false) -> WF s -> acc s k M ->
+  (run_script k ls i inj).2 = false ->
+  exists dm md, s_des s !! M = Some dm /\ s_dp s1 !! M = Some (clean dm) /\ s_trk s1 !! M = Some (md, md)
+             /\ (run_script k ls i inj).1.2 !! M = Some (norm_meta dm, md).
+Proof. exact wu_exact. Qed.
+Print Assumptions c16_block_exact.
+
+(* c16_converges.  In every state reachable across failed commands and resyncs from any starting kernel, once Felix
+   has nothing left to do - `quiet s`: no full resync pending, must-queue empty, no dirty or metadata-pending desired
+   set, no pending deletion (which is the state a successful ApplyUpdates followed by ApplyDeletions runs leave when
+   every destroy succeeded) - EVERY name owned by Felix is in the kernel exactly as desired: a desired set has
+   exactly the desired type/parameters and members, and no other owned set (stale main set, temporary set, set with
+   a historic prefix) remains. *)
+Theorem c16_converges : forall s k D n,
+  reachF s k D -> quiet s -> owned n = true -> k !! n = want_of D n.
+Proof. exact converges. Qed.
+Print Assumptions c16_converges.
+
+(* Non-vacuity of `quiet`: the repaired example history (a failed write, a retry, a swap, two destroys) ends quiet. *)
+Theorem c16_quiet_example : quietb (d_s fk_r6) = true.
+Proof. exact fk_quiet. Qed.
+Print Assumptions c16_quiet_example.
